@@ -260,6 +260,23 @@ def command(values=("r1", "r2"), appends=0, err=None, suffix=None, ttl=None, slo
                       cttl=ttl or "forever", cappends=capp, slow_on="*" if slow else "", cat=cat, interleave=lazy), script=script)
 
 
+def command_module():
+    """C19 (modules): a definition that brings its own module; the closure calls into it"""
+    script = ('{\n  modules: {\n    vmod: "export def tag [x: string] { $\"v.($x)\" }"\n  }\n'
+              '  run: {|frame|\n    [{k: (vmod tag "r1"), tid: $frame.id, t: $frame.topic} {k: (vmod tag "r2"), tid: $frame.id, t: $frame.topic}]\n  }\n}\n')
+    return dict(_spec(fam="c", recv=["v.r1", "v.r2"]), script=script)
+
+
+def handler_module():
+    """C15 (modules): the same for a handler"""
+    script = ('$env.n = 0\n{\n  modules: {\n    hmod: "export def word [] { \"ret\" }"\n  }\n  run: {|frame|\n'
+              '    if not ($frame.topic | str starts-with "t.") { return }\n    $env.n = $env.n + 1\n'
+              '    {k: (hmod word), n: $env.n, tid: $frame.id, t: $frame.topic}\n  }\n}\n')
+    o = _out("{name}.out", "ret")
+    o["name"], o["suf"], o["ret"] = "", "out", True
+    return dict(_spec(fam="h", outs=[o], group=1), script=script)
+
+
 COMMANDS = {
     "c_two": command(),
     "c_zero": command(values=()),
